@@ -223,6 +223,60 @@ class Fn:
             return f"{self.file()}:{l}"
         return l or self.span
 
+    def places(self, include_cleanup=False):
+        """every place mentioned in the body: yields (bid, idx, place, how) with how in
+        'store' | 'read' | 'ref' | 'refmut' | 'arg' | 'dest' | 'drop' | 'discr'"""
+        def ops(o):
+            p = op_place(o)
+            if p is not None:
+                yield p
+        for bid, b in self.blocks.items():
+            if b['cleanup'] and not include_cleanup:
+                continue
+            for i, st in enumerate(b['stmts']):
+                if st['k'] == 'assign':
+                    yield bid, i, st['place'], 'store'
+                    rv = st['rv']
+                    for k in ('use', 'a', 'b', 'repeat'):
+                        if k in rv and isinstance(rv[k], dict):
+                            for p in ops(rv[k]):
+                                yield bid, i, p, 'read'
+                    if 'ref' in rv:
+                        yield bid, i, rv['ref'], 'refmut' if rv.get('mut') else 'ref'
+                    if 'raw_ptr' in rv:
+                        yield bid, i, rv['raw_ptr'], 'refmut'
+                    if 'discr' in rv:
+                        yield bid, i, rv['discr'], 'discr'
+                    for o in rv.get('ops', []):
+                        for p in ops(o):
+                            yield bid, i, p, 'read'
+                elif st['k'] == 'set_discr':
+                    yield bid, i, st['place'], 'store'
+            t = b['term']
+            if not t:
+                continue
+            if t['k'] == 'call':
+                for a in t['args']:
+                    for p in ops(a):
+                        yield bid, 'T', p, 'arg'
+                yield bid, 'T', t['dest'], 'dest'
+            elif t['k'] == 'switch':
+                for p in ops(t['discr']):
+                    yield bid, 'T', p, 'read'
+            elif t['k'] == 'assert':
+                for p in ops(t['cond']):
+                    yield bid, 'T', p, 'read'
+            elif t['k'] == 'drop':
+                yield bid, 'T', t['place'], 'drop'
+
+    def field_accesses(self, adt, field):
+        """places projecting field `field` of ADT `adt`"""
+        for bid, idx, p, how in self.places():
+            for pr in p['proj']:
+                if isinstance(pr, dict) and pr.get('name') == field and pr.get('of') == adt:
+                    yield bid, idx, p, how
+                    break
+
     # ----- reachability / dominance ---------------------------------------
     def reachable(self, start=0, avoid=()):
         seen = set()
